@@ -57,7 +57,7 @@ class Abstraction:
                 if fname in ABSTRACTED or (is_uf and self.ack_uf):
                     key = n.val if not isinstance(n.val, tuple) else "pow[%s]" % n.val[1]
                     self.counter += 1
-                    v = tm.var("@%s#%d" % (key, self.counter))
+                    v = tm.var("AT.%s#%d" % (key, self.counter))
                     self.atoms.setdefault(key, []).append((v, tuple(new), n))
                     memo[n] = v
                     continue
@@ -73,7 +73,7 @@ class Abstraction:
             if self.linearize and r.op == "mul":
                 # every non-linear monomial becomes an opaque real (a weakening: unsat stays sound)
                 self.counter += 1
-                v = tm.var("@mul#%d" % self.counter)
+                v = tm.var("AT.mul#%d" % self.counter)
                 key = ("mul", r)
                 prev = self.memo.get(key)
                 if prev is None:
@@ -293,9 +293,9 @@ class Z3Export:
         if op == "false":
             return z3.BoolVal(False)
         if op == "named":
-            v = self.vars.get("$" + n.val)
+            v = self.vars.get("NC." + n.val)
             if v is None:
-                v = self.vars["$" + n.val] = z3.Real("$" + n.val)
+                v = self.vars["NC." + n.val] = z3.Real("NC." + n.val)
             return v
         if op == "var":
             v = self.vars.get(n.val)
@@ -429,6 +429,95 @@ def solve(
         res.z3model = m
         res.export = ex
     return res
+
+
+CROSS = {"asked": 0, "agree": 0, "cvc5_unknown": 0, "disagree": []}
+
+
+def cvc5_check(smt2: str, timeout_ms=20000):
+    """Second opinion: run the exact query z3 saw (SMT-LIB2 text) through cvc5."""
+    import cvc5
+
+    slv = cvc5.Solver()
+    slv.setOption("tlimit-per", str(int(timeout_ms)))
+    import re
+
+    has_int = "to_int" in smt2 or "to_real" in smt2
+    has_uf = re.search(r"declare-fun \S+ \((Real|Bool| )+\)", smt2) is not None and re.search(r"declare-fun \S+ \([^)]+\)", smt2) is not None
+    if has_int:
+        slv.setLogic("ALL")
+    else:
+        slv.setLogic("QF_UFNRA" if has_uf else "QF_NRA")
+        try:
+            slv.setOption("nl-cov", "true")
+        except Exception:  # noqa: BLE001
+            pass
+    p = cvc5.InputParser(slv)
+    p.setStringInput(cvc5.InputLanguage.SMT_LIB_2_6, smt2, "q")
+    sm = p.getSymbolManager()
+    res = "unknown"
+    while True:
+        cmd = p.nextCommand()
+        if cmd.isNull():
+            break
+        out = str(cmd.invoke(slv, sm)).strip()
+        if out in ("sat", "unsat", "unknown"):
+            res = out
+    return res
+
+
+def _cvc5_forked(smt2, timeout_ms):
+    """cvc5 in a forked child with a hard deadline (its own time limit is not always honoured by the nonlinear engine)"""
+    import os
+    import select
+    import signal
+
+    r, w = os.pipe()
+    pid = os.fork()
+    if pid == 0:
+        try:
+            os.close(r)
+            try:
+                out = cvc5_check(smt2, timeout_ms)
+            except BaseException:  # noqa: BLE001
+                out = "unknown"
+            os.write(w, out.encode())
+        finally:
+            os._exit(0)
+    os.close(w)
+    out = "unknown"
+    try:
+        ready, _, _ = select.select([r], [], [], timeout_ms / 1000.0 + 2.0)
+        if ready:
+            data = os.read(r, 64).decode().strip()
+            if data in ("sat", "unsat", "unknown"):
+                out = data
+    finally:
+        os.close(r)
+        try:
+            os.kill(pid, signal.SIGKILL)
+        except ProcessLookupError:
+            pass
+        try:
+            os.waitpid(pid, 0)
+        except ChildProcessError:
+            pass
+    return out
+
+
+def cross_check(res: Result, timeout_ms=10000):
+    """Compare a decided z3 verdict with cvc5 on the same SMT-LIB2 text; records agreement statistics."""
+    if res.smt2 is None or res.status not in ("sat", "unsat"):
+        return None
+    CROSS["asked"] += 1
+    other = _cvc5_forked(res.smt2, timeout_ms)
+    if other == "unknown":
+        CROSS["cvc5_unknown"] += 1
+    elif other == res.status:
+        CROSS["agree"] += 1
+    else:
+        CROSS["disagree"].append("z3=%s cvc5=%s" % (res.status, other))
+    return other
 
 
 def entails(hyps: Sequence[T], goal: T, **kw) -> Result:
